@@ -357,7 +357,13 @@ namespace adm {
       audioTrackUids_.erase(it);
       AudioTrackUidAttorney::setParent(trackUid, {});
       for (auto& audioObject : audioObjects_) {
-        audioObject->removeReference(trackUid);
+        // a silent audioTrackUid may be referenced more than once by an object
+        auto references = audioObject->getReferences<AudioTrackUid>();
+        auto occurrences =
+            std::count(references.begin(), references.end(), trackUid);
+        for (; occurrences > 0; --occurrences) {
+          audioObject->removeReference(trackUid);
+        }
       }
       return true;
     }
